@@ -615,6 +615,33 @@ def run_more_name_rules(chk, spec):
 				exp = L.column_names() + R.column_names()
 				if second.value.column_names() != exp:
 					chk.fail("joined tables keep each source column's stored name in order", f"names/join/stale-after-rename/{how}/{ren}", f"{spec!r}: the second join names its columns {second.value.column_names()!r}; the tables now store {exp!r}")
+		elif what == "column-names-after-handle-rename":
+			# column_names() - rename through a handle - something that refreshes the accessor map - column_names(): the header is what the columns are called NOW
+			t = Table({"a": [1, 2], "b": [3, 4]})
+			first = call(t.column_names)
+			call(setattr, t[{"first": "a", "second": "b"}[spec["variant"].split("/")[0]]], "name", "z")
+			refresh = spec["variant"].split("/")[1]
+			call({"getattr": lambda: t.z, "dir": lambda: dir(t), "row": lambda: t[0], "iterate": lambda: [tuple(r) for r in t], "cell-write": lambda: t.__setitem__((0, "z"), 9), "repr": lambda: repr(t), "nothing": lambda: None}[refresh])
+			second = call(t.column_names)
+			exp = ["z", "b"] if spec["variant"].startswith("first") else ["a", "z"]
+			if second.ok and second.value != exp:
+				chk.fail("in-place renames are what the table shows", f"names/column_names/stale-after-handle-rename/{refresh}", f"{spec!r}: column_names() gives {second.value!r}; the columns are called {[c._name for c in t.cols()]!r}")
+				return
+			for label, f in (("copy", lambda: t.copy()), ("slice", lambda: t[0:1]), ("*2", lambda: t * 2), ("sort", lambda: t.sort_by("z"))):
+				o = call(f)
+				if o.ok and o.value.column_names() != exp:
+					chk.fail("tables filtered, sliced, sorted keep each source column's stored name", f"names/{label}/after-handle-rename", f"{spec!r}: {label} names {o.value.column_names()!r}, expected {exp!r}")
+					return
+		elif what == "unsanitisable-key-labels":
+			# a key whose label sanitises to nothing ('%', '#', ' ', '--') is still called what it is called: key columns keep their stored names
+			lab = spec["variant"]
+			t = Table([Vector(["a", "b", "a"], name=lab), Vector([1, 1, 2], name="g"), Vector([1, 2, 3], name="v")])
+			for op in ("aggregate", "window"):
+				for over in ([lab], [lab, "g"], ["g", lab]):
+					o = call(lambda: getattr(t, op)(over=list(over), sum_over="v"))
+					if o.ok and o.value.column_names()[:len(over)] != list(over):
+						chk.fail("aggregate and window name their outputs after the key names", f"names/{op}/key-names/unsanitisable-label", f"{spec!r}: over={over!r}: key columns named {o.value.column_names()[:len(over)]!r}")
+						return
 		elif what == "keyword-labels":
 			# a column whose label is a Python keyword: its sanitised name is the keyword itself (keywords are no Vector / Table attributes), whatever was printed before
 			kw = spec["variant"]
@@ -703,7 +730,7 @@ def gen_agg_names_spec(rng):
 def run(chk):
 	for what, variants in (("fold-letters", ["strasse", "long-s", "fi", "capital-sharp-s", "dotless-i", "plain"]), ("selection-rename-local", ["t[:, name]", "t[:, j]", "t[name, :]", "t[0:3, name]", "t[:, (name,)]", "t[mask][name]"]),
 			("spelled-key-after-view-rename", ["untouched", "touched-first"]), ("nested-apply-names", ["aggregate-same-table", "window-same-table", "aggregate-other-table", "window-other-table"]), ("empty-typed-arithmetic", ["mask", "slice", "float-column", "typed-ctor", "sorted-empty"]),
-			("join-after-right-rename", [f"{h}/{r}" for h in ("left", "inner", "full") for r in ("rename_column", "rename_columns", "handle", "key-handle", "left-handle")]), ("keyword-labels", ["in", "class", "import", "lambda", "None", "is", "Not", "async"]), ("copy-new-values", ["vector", "column", "float", "str"]), ("fillna-keeps-name", ["int<-float", "int<-complex", "float<-complex", "date<-datetime", "same-kind", "column"])):
+			("join-after-right-rename", [f"{h}/{r}" for h in ("left", "inner", "full") for r in ("rename_column", "rename_columns", "handle", "key-handle", "left-handle")]), ("column-names-after-handle-rename", [f"{w}/{r}" for w in ("first", "second") for r in ("getattr", "dir", "row", "iterate", "cell-write", "repr", "nothing")]), ("unsanitisable-key-labels", ["%", "#", " ", "--", "!?", "\u00e9\u00e9"]), ("keyword-labels", ["in", "class", "import", "lambda", "None", "is", "Not", "async"]), ("copy-new-values", ["vector", "column", "float", "str"]), ("fillna-keeps-name", ["int<-float", "int<-complex", "float<-complex", "date<-datetime", "same-kind", "column"])):
 		for variant in variants:
 			chk.case("more_name_rules", {"what": what, "variant": variant}, "more-name-rules")
 	for op in ("aggregate", "window"):
